@@ -42,6 +42,7 @@ type fsModelT struct {
 	crashAt int
 	pid     int
 	overwrites int // os.Create of a path that already exists
+	snaps   []map[string]*fsNode
 }
 
 type fsCrash struct{ at int }
@@ -259,6 +260,23 @@ func init() {
 			st[1] = int64(len(mf.node.data))
 			var cell value = st
 			return tuple{iface{t: types.NewPointer(T), v: &cell}, iface{}}
+		},
+		// the directory image at this instant (what a process death right now would leave) / put it back
+		cometPath + ".vFSSnapshot": func(fr *frame, a []value) value {
+			snap := map[string]*fsNode{}
+			for p, n := range FS.files {
+				snap[p] = &fsNode{data: append([]value(nil), n.data...)}
+			}
+			FS.snaps = append(FS.snaps, snap)
+			return len(FS.snaps) - 1
+		},
+		cometPath + ".vFSRestore": func(fr *frame, a []value) value {
+			snap := FS.snaps[asInt(a[0])]
+			FS.files = map[string]*fsNode{}
+			for p, n := range snap {
+				FS.files[p] = &fsNode{data: append([]value(nil), n.data...)}
+			}
+			return nil
 		},
 		cometPath + ".vFSSched": func(fr *frame, a []value) value { fsSchedLevel = asInt(a[0]); return nil },
 		"os.Stat": func(fr *frame, a []value) value {
